@@ -4,12 +4,15 @@
 (* calls of each behaviour; the driver performs them on the real rtosc::UndoHistory  *)
 (* (time() interposed) and logs what it observes; UndoHistoryTrace judges the log.   *)
 EXTENDS UndoHistory, Json, CSV, IOUtils
-VARIABLE ops
-SimInit == Init /\ ops = <<>>
-SimNext == Next /\ ops' = Append(ops, step')
+CONSTANT Profile        \* "free": any call at any time;  "cap": the clock jumps past the merge window after every recorded
+                        \*  event, so events do not merge and the Max-entry cap is crossed in every alignment
+VARIABLES ops, owe      \* owe: a clock jump is due
+SimInit == Init /\ ops = <<>> /\ owe = FALSE
+SimNext == IF owe THEN /\ Tick(Window + 1) /\ step' = [op |-> "tick", d |-> Window + 1] /\ ops' = Append(ops, step') /\ owe' = FALSE
+           ELSE /\ Next /\ ops' = Append(ops, step') /\ owe' = (Profile = "cap" /\ step'.op = "rec")
 Out == IOEnv.OUT
 MaxDepth == atoi(IOEnv.DEPTH)
 \* In simulation TLC evaluates the constraint on every candidate successor, so exactly one candidate
 \* per behaviour is written out: the one that ends with a clock tick of 1.
-Export == (TLCGet("level") < MaxDepth) \/ step.op # "tick" \/ step.d # 1 \/ CSVWrite("%1$s", <<ToJson(ops)>>, Out)
+Export == (TLCGet("level") < MaxDepth) \/ step.op # "tick" \/ step.d # (IF Profile = "cap" THEN Window + 1 ELSE 1) \/ CSVWrite("%1$s", <<ToJson(ops)>>, Out)
 =============================================================================
